@@ -52,6 +52,10 @@ func boolp(b bool) *bool { return &b }
 func webhook(actor, hook string, cfg vs.Obj) *v1alpha1.Hook {
 	url := "http://hook/" + actor + "/" + hook
 	wh := &v1alpha1.Webhook{URL: &url}
+	if vs.AsBool(cfg["etag"]) {
+		on := true
+		wh.Etag = &v1alpha1.WebhookEtagConfig{Enabled: &on}
+	}
 	if vs.AsBool(cfg["strict"]) {
 		m := v1alpha1.ResponseUnmarshallModeStrict
 		wh.ResponseUnmarshallMode = &m
